@@ -12,7 +12,9 @@ _RULE = ("histories of 10-60 (thorough: 10-130) operations by 4 actors (creator 
          "reward-per-share * stake has a fractional part; distinct = by hash of the history")
 
 _TRUST = ["coinswap (liquidity-token validation) is used as set up by the harness: two pools lpt-1, lpt-2",
-          "community-pool farms (gov proposal path, refund to the fee pool) are not modelled"]
+          "community-pool farms (MsgCreatePoolWithCommunityPool / HandleCreateFarmProposal) are not modelled and cannot be exercised: "
+          "the e2e / simapp application does not register the farm escrow_collector module account, so both entry points abort "
+          "in the bank keeper (module account escrow_collector does not exist); a refund always goes to the pool's creator account"]
 
 PROPS["C05"] = dict(
     driver="farm",
@@ -63,5 +65,6 @@ PROPS["C06"] = dict(
     trusted_base=_TRUST,
     assumptions=["amounts stay far below the 256-bit range of sdkmath.Int (the generator's balances are 10^30)",
                  "theorems: message senders are not module accounts; at genesis the farm module account is empty and the reward collector non-negative",
-                 "payout_close_to_fair_share is stated for one farmer and one rule as an event list; cacl_rewards_is_act ties an event to the model's CaclRewards"],
+                 "payout_close_to_fair_share_on_histories is about model histories (ProRata.v projects a history onto the one-farmer / one-rule event abstraction); "
+                 "its hypotheses: the pool exists, the rule is its j-th, the farmer holds no stake at the start of the history"],
 )
